@@ -47,6 +47,32 @@ type tm string // encoding.TextMarshaler
 
 func (t tm) MarshalText() ([]byte, error) { return []byte(t), nil }
 
+// named scalar types with marshalers
+type lvlT int
+
+func (l lvlT) MarshalText() ([]byte, error) {
+	if l == 7 {
+		return nil, errors.New("no text")
+	}
+	return []byte("<high>"), nil
+}
+
+type flagJ uint8
+
+func (flagJ) MarshalJSON() ([]byte, error) { return []byte(`{"set":false}`), nil }
+
+type boolJ bool
+
+func (boolJ) MarshalJSON() ([]byte, error) { return []byte(`"<yes>"`), nil }
+
+type strJ string
+
+func (s strJ) MarshalJSON() ([]byte, error) { return json.Marshal([]string{"<", string(s)}) }
+
+type fltT float64
+
+func (fltT) MarshalText() ([]byte, error) { return []byte("</script>"), nil }
+
 type jmErr struct{}
 
 func (jmErr) MarshalJSON() ([]byte, error) { return nil, errors.New("no") }
@@ -61,7 +87,7 @@ func (jmPanic) MarshalJSON() ([]byte, error) { panic("marshaler panics") }
 func c17coerce(s string) string { return ivalid.Encode(ivalid.Decode(s)) }
 
 func c17Strings(n int) []string {
-	alpha := []string{"a", "<", ">", "&", "\"", "\\", "/", "\u2028", "\u2029", "\x00", "\x80", "</script>", "<!--", "]]>", "'", "\n", "\x7f", "\xe2\x80"}
+	alpha := []string{"a", "<", ">", "&", "\"", "\\", "/", "\u2028", "\u2029", "\x00", "\x80", "</script>", "<!--", "]]>", "'", "\n", "\x7f", "\xe2\x80", "\U0001F44D", "\u00e9", "\uffff", "\ufeff"}
 	var out []string
 	var rec func(p string, d int)
 	rec = func(p string, d int) {
@@ -127,6 +153,27 @@ func c17Data(strLen int) []c17datum {
 		add("marshaler-invalid:"+core.Q(bad), jm(bad), false, nil)
 		add("rawmessage-invalid:"+core.Q(bad), json.RawMessage(bad), false, nil)
 	}
+	// named scalar types with their own marshalers (a fast path by reflect.Kind must not bypass them), numbers in odd clothes
+	add("int-with-MarshalText", lvlT(1), true, "<high>")
+	add("int-with-failing-MarshalText", lvlT(7), false, nil)
+	add("uint8-with-MarshalJSON", flagJ(1), true, map[string]interface{}{"set": false})
+	add("bool-with-MarshalJSON", boolJ(true), true, "<yes>")
+	add("string-with-MarshalJSON", strJ("x"), true, []interface{}{"<", "x"})
+	add("float-with-MarshalText", fltT(1.5), true, "</script>")
+	add("ptr-to-int-with-MarshalText", func() *lvlT { v := lvlT(1); return &v }(), true, "<high>")
+	add("map-with-int-marshaler-values", map[string]lvlT{"a": 1}, true, map[string]interface{}{"a": "<high>"})
+	add("struct-embedding-marshaler", struct{ lvlT }{1}, true, "<high>")
+	add("json.Number", json.Number("1e3"), true, float64(1000))
+	add("json.Number-invalid", json.Number("<1"), false, nil)
+	add("uint64-max", uint64(math.MaxUint64), true, float64(math.MaxUint64))
+	add("int-keyed-map", map[int]string{-1: "<"}, true, map[string]interface{}{"-1": "<"})
+	add("nil-ptr", (*int)(nil), true, nil)
+	add("nil-slice-and-map", struct {
+		A []int
+		B map[string]int
+	}{}, true, map[string]interface{}{"A": nil, "B": nil})
+	add("float32", float32(0.1), true, 0.1) // the JSON value of a float32 is its shortest 32-bit representation
+	add("negative-zero", math.Copysign(0, -1), true, math.Copysign(0, -1))
 	add("chan", make(chan int), false, nil)
 	add("func", func() {}, false, nil)
 	add("nan", math.NaN(), false, nil)
